@@ -44,6 +44,18 @@ CLAIMED = {
         technique="Coq proof (invariant by induction over operation sequences) + correspondence on histories by vm_compute",
         note="mult(u) counts knots within 1e-9 of u (so it is >= the exact count; equality holds for separated vectors: "
              "C03_mult_partial/C03_mult_refuted). GeneratorKnotVector.random is judged by prop_ok only."),
+    "C04": dict(
+        text="Theorems (Props/C04.v): the new knot vector is sortq(old ++ nodes) - sorted, a permutation, per-value counts add up, "
+             "well-formed, multiplicities bounded; outside nodes -> ValueError; Boehm's identity for every degree and index with "
+             "exactly the coefficients of the model's insertion matrix (C04_boehm). That the curve is the same function of u is decided "
+             "for every generated case inside Coq by the exact function oracle (old and new curve compared through the Cox-de Boor "
+             "specification at p+1 (2p+1 for rational) distinct rational points of every span, every knot and both ends), for "
+             "polynomial and rational curves, zero nodes, repeated nodes, overflow and outside requests; state after a refused "
+             "request is compared with the state before.",
+        design="7/C04",
+        technique="Coq proof (Boehm identity by induction on the degree; knot-vector algebra) + correspondence and exact function oracle by vm_compute",
+        note="The lift of Boehm's identity from basis functions to the model's composed matrices (for-all-u invariance of "
+             "c_knot_insert) is work in progress (Proofs/InsertSeq.v); until then that clause rests on the per-case oracle."),
     "C17": dict(
         text="U|V and U&V of the model are compared with the closed-form multiplicity law (degree max(p,q); per knot the larger of "
              "the degree-lifted multiplicities; per-knot minimum for & at equal degrees), commutativity, idempotence, "
